@@ -667,7 +667,15 @@ def check_bell(case):
     req(val >= best - tol, f"bell_inequality_max = {val:.6f} is below a value achieved by an explicit two-qubit strategy {best:.6f} (deterministic {cl:.6f})", "bell<achieved")
     if hi is None:
         raise Inconclusive("bell-oracle-flat")
-    req(val <= hi + tol, f"bell_inequality_max = {val:.6f} exceeds the quantum optimum, certified <= {hi:.6f} (best deterministic {cl:.6f})", "bell>optimum")
+    # Known finding C08-bell-max-relaxation-gap: with marginal terms the extension + PPT programme toqito solves is a
+    # relaxation that is occasionally not tight (witness: 2.0306 against a true optimum of 2.0260, the same with SCS and
+    # CLARABEL).  Only that shape gets the listed signature - marginals present and an overshoot below 1% of the
+    # coefficient scale (measured: 1 case in ~2000 exceeds 0.1%, none exceeds 0.2%); anything larger, or any overshoot
+    # of a pure correlation expression (where the relaxation is Tsirelson-tight), keeps the unlisted signature.
+    over = (val - hi) / scale
+    has_marg = bool(np.any(ac != 0) or np.any(bc != 0))
+    sig = "bell>optimum:marginals:overshoot<1e-2" if has_marg and over <= 1e-2 else "bell>optimum"
+    req(val <= hi + tol, f"bell_inequality_max = {val:.6f} exceeds the quantum optimum, certified <= {hi:.6f} (best deterministic {cl:.6f})", sig)
 
 
 def nt_bell(case):
